@@ -5,13 +5,15 @@ from common import *
 from runner import Script, Cfg
 
 ID = "C15"
-THEOREMS = ["C15_ref_type_roundtrip", "C15_ref_type_fields", "C15_ref_roundtrip", "C15_ref_resp_roundtrip", "C15_ref_sound",
+THEOREMS = ["Later.Later_bound_dispatch", "Later.Later_stun_repl", "Later.Later_stun_stream", "Later.Later_stun_proto",
+            "Later.Later_stun_frame", "Later.Later_stun_flow", "Later.Later_stun_example_flow", "Later.Later_stun_example_monitor_refuses",
+            "C15_ref_type_roundtrip", "C15_ref_type_fields", "C15_ref_roundtrip", "C15_ref_resp_roundtrip", "C15_ref_sound",
             "C15_handler_request", "C15_handler_request_raw", "C15_response_decodes", "C15_other_class_method_silent",
             "C15_malformed_silent_refuted", "C15_malformed_silent_partial", "C15_truncated_silent", "C15_answered_iff",
             "C15_dispatch_total", "C15_proto_udp_monitor", "C15_proto_tcp_monitor", "C15_frame_udp_monitor",
             "C15_examples", "C15_frame_example", "C15_known_class_witness", "C15_known_class_exact_on_sample",
             "C15_malformed_answered_witnesses", "C15frame.C15_other_handlers_no_stun_response", "C15frame.C15_frame_tcp_gen_is", "C15frame.C15_frame_tcp_first_history_at", "C15frame.C15_frame_tcp_first_state_at", "C15frame.C15_frame_tcp_first", "C15frame.C15_frame_tcp_identified", "C15frame.C15_frame_udp_gen_is", "C15frame.C15_frame_udp_at", "C15frame.C15_udp_without_dns_hypothesis_refuted", "C15frame.C15_frame_tcp_example", "C15frame.C15_frame_tcp_known_class_example", "C15frame.C15_frame_udp_example", "SrcTie.src_stun_constants", "Current.C15_current_published_identified", "Current.C15_magic_outside_C10_class", "Current.C15_end_anchored_identified", "Current.C15_class_mismatch_witnesses", "Current.C15_class_tcp_unidentified", "Current.C15_class_tcp_exact", "Current.C15_class_udp_unidentified", "Current.C15_class_udp_exact", "Current.C15_current_ident", "Current.C15_dns_quiet_short", "Current.C15_current_frame_tcp_first", "Current.C15_current_frame_tcp_first_state", "Current.C15_current_frame_udp", "Current.C15_current_examples", "Env.the_env_ok"]
-MONITORS = ["C15udp", "C15tcp", "C15udp_strict", "C15tcp_strict"]
+MONITORS = ["C15udp", "C15tcp", "C15udp_strict", "C15tcp_strict", "C15later"]
 STRICT = ("C15udp_strict", "C15tcp_strict")
 RULE = ("STUN messages built by an independent Python encoder: all four classes x methods {Binding, 0, 2, 3, 0x800, 0xfff, "
         "random}, random 128-bit transaction ids (with and without the magic cookie), attribute lists of 0..6 TLVs "
@@ -358,6 +360,15 @@ def history_monitor(script, outs):
         elif answered and len(a[2]) >= 20 and a[2][4:20] == m["tid"] and a[2][0] == 1 and (a[2][1] & 0xef) == 0x01:
             msgs.append((i, "python oracle: class %d method %#x got a STUN response" % (m["cls"], m["method"])))
     return msgs
+
+
+NOSHRINK_MONITORS = ("C15later",)
+
+
+def monitor_applies(name, script, i):
+    """the later-segment monitor (Spec/Later.v: ok_C15_tcp_later, proved of the model in Properties/Later.v) judges only
+    the frames the generator built as later segments of a flow bound to the STUN responder"""
+    return name != "C15later" or script.frames[i] in LATER
 
 
 def known_class(issue):
